@@ -130,6 +130,9 @@ func overLimit(m *qmodel.Model) bool {
 
 func TestCheck(t *testing.T) {
 	r := runner.Start("C12", "model_checking")
+	if qcheck.HandleReplay(r, []qcheck.Spec{{Name: "c12-store", Extra: admission, Skip: overLimit}}, nil) {
+		r.Finish()
+	}
 	var jobs []job
 	depths := runner.Pick(r, []int{1, 2}, []int{1, 2, 3})
 	for _, d := range depths {
